@@ -21,15 +21,15 @@ CaseOf(e) == [depreq |-> e.case.depreq, fields |-> e.case.fields,
                            [e.case.vals[i] EXCEPT !.deps = ToSet(@), !.disc = ToSet(@)]],
               ext    |-> [i \in DOMAIN e.case.ext |->
                            [e.case.ext[i] EXCEPT !.deps = {}, !.disc = {}]],
-              extmode |-> e.case.extmode]
+              extmode |-> e.case.extmode, maxp |-> e.case.maxp]
 LoggedErrs(e) == {<<e.errs[i][1], e.errs[i][2]>> : i \in DOMAIN e.errs}
 
 Load(i) == /\ case' = CaseOf(Execs[i]) /\ phase' = "fields" /\ fi' = 1 /\ provided' = {} /\ ferr' = {}
-           /\ pending' = <<>> /\ errs' = {} /\ ran' = <<>> /\ constructed' = 0
+           /\ pending' = <<>> /\ errs' = RootErrOf(CaseOf(Execs[i])) /\ ran' = <<>> /\ constructed' = 0
            /\ tid' = i /\ k' = 1
 
 TraceInit == /\ case = CaseOf(Execs[1]) /\ phase = "fields" /\ fi = 1 /\ provided = {} /\ ferr = {}
-             /\ pending = <<>> /\ errs = {} /\ ran = <<>> /\ constructed = 0
+             /\ pending = <<>> /\ errs = RootErrOf(CaseOf(Execs[1])) /\ ran = <<>> /\ constructed = 0
              /\ tid = 1 /\ k = 1
 
 E == Execs[tid]
